@@ -20,7 +20,9 @@ PROP = dict(
           "add/commit_sig/revoke_and_ack/fulfill/fail on one of the four directed edges and everything after it - optionally "
           "the reverse direction too - is lost until the peers reconnect: the next restart, a generated flap, or the flap the "
           "harness performs when the wire has gone idle in the last phase). A quarter of the cases use a burst template (>=3 adds in one commitment, one refused by the forwarder, "
-          "one held, two restarts). After the last phase all hold invoices are resolved and the harness polls for quiescence "
+          "one held, two restarts); a fifth use a slots template (the forwarder's outgoing channel has max_accepted_htlcs "
+          "1-2, held payments occupy the slots, further adds of the same batch pass the switch but are refused by the "
+          "outgoing link = mailbox FailAdd, then 1-2 restarts). After the last phase all hold invoices are resolved and the harness polls for quiescence "
           "(every payment result known, all four channel ends IsChannelClean) with doomed 'nudge' payments when the wire is "
           "idle; deadline (90 s) => the case is counted 'inconclusive' and asserts nothing. Oracle: (A) no HTLC / pending "
           "commitment in any durable channel state, both ends agree, local+remote+fee == capacity; (B) Bob's total over both "
